@@ -4,9 +4,11 @@
    threads         : Model.ChannelSched (the C11 model; every chunk records the token instance that secured it).
    The server handles a renewal on the instance it already has (re-keys it in place, pinned below), so once it has
    answered a renewal it can only verify chunks of the newest token: a request "completes normally" only if its chunks
-   are not secured by an instance older than one already used on the wire (tokens_monotone_rev). *)
+   are not secured by a superseded instance (not_superseded / tokens_monotone_rev).
+   Model.ChannelSchedBeforeFix: the same semantics for the code before fix dd66ad2, kept for the *_before_fix theorems. *)
 From Coq Require Import ZArith List Bool Lia String.
 From Opcua Require Import Gen.ArithFromGo Gen.SendSide Model.ChannelSched Proofs.ChannelSchedProofs.
+From Opcua Require Model.ChannelSchedBeforeFix.
 Import ListNotations.
 Open Scope Z_scope.
 
@@ -45,41 +47,50 @@ Proof. repeat split; reflexivity. Qed.
 
 (* ---- requests around a renewal ---- *)
 
-(* full statement: under every interleaving no chunk is written under a token older than one already used *)
-Definition C16_tokens_statement : Prop := forall seq0 req0 s, reachable seq0 req0 s -> tokens_monotone_rev (wire_rev s) = true.
+(* FULL: under every interleaving of any number of senders and renewals (succeeding or failing) every chunk is
+   secured by the instance that was installed at the moment it was written, or by a newer one (the renewal request
+   itself): no request is ever sent under a superseded token *)
+Theorem C16_no_chunk_under_superseded_token : forall seq0 req0 s,
+  reachable seq0 req0 s -> forallb not_superseded (wire_rev s) = true.
+Proof. intros; eapply not_superseded_full; eassumption. Qed.
 
-(* REFUTED: the C11 renewal window.  The sender's chunk is secured with the superseded instance 0 after the renewal
-   request was written under instance 1; the server has re-keyed its instance and cannot verify it. *)
-Theorem C16_refuted_old_token_after_renewal : exists s,
-  reachable 1 1 s /\ tokens_monotone_rev (wire_rev s) = false /\ map c_inst (wire s) = [1%nat; 0%nat].
+(* ... and as long as no renewal fails the instances along the wire never go back, which is what the server needs:
+   it re-keys its one instance in place and can then only verify the newest token *)
+Theorem C16_tokens_never_go_back : forall seq0 req0 s,
+  reachableP no_fail seq0 req0 s -> tokens_monotone_rev (wire_rev s) = true.
+Proof. intros; eapply tokens_monotone_no_fail; eassumption. Qed.
+
+Example C16_tokens_nonvacuous : exists s,
+  reachableP no_fail 10 1 s /\ renewals s = 2%nat /\ map c_inst (wire s) = [0; 1; 1; 1; 2; 2]%nat.
 Proof.
   eexists. split.
-  - exists [ESpawn 0; EGate 0; EActive 0; ERenStart; ERenGate; ERenDrain; ERenLock; ERenCopy; ERenOpn; ERenInstall; ERenUnlock;
-            ECount 0; ELockI 0; EChunk 0]%nat. vm_compute. reflexivity.
+  - exists [ESpawn 0; EGate 0; EActive 0; EId 0; ELockI 0; EChunk 0; EUnlockI 0; EDone 0;
+            ERenStart; ERenGate; ERenDrain; ERenLock; ERenCopy; ERenOpn; ERenInstall; ERenUnlock;
+            ESpawn 1; EGate 1; EActive 1; EId 1; ELockI 1; EChunk 1; EChunk 1; EUnlockI 1; EDone 1;
+            ERenStart; ERenGate; ERenDrain; ERenLock; ERenCopy; ERenOpn; ERenInstall; ERenUnlock;
+            ESpawn 0; EGate 2; EActive 2; EId 2; ELockI 2; EChunk 2]%nat. vm_compute. reflexivity.
   - split; vm_compute; reflexivity.
 Qed.
 
-Theorem C16_refuted_tokens : ~ C16_tokens_statement.
-Proof.
-  intro H. destruct C16_refuted_old_token_after_renewal as (s & R & X & _). rewrite (H 1 1 s R) in X. discriminate.
-Qed.
+(* what fix dd66ad2 repaired (model of the code before it): the sender caught in the renewal window secured its
+   chunk with the superseded instance 0 after the renewal request had been written under instance 1 *)
+Module Old := Opcua.Model.ChannelSchedBeforeFix.
 
-(* PARTIAL: when no sender is in the window at the moment the renewal finds the request counter drained (and the
-   renewal does not fail), every chunk of every request, under every interleaving, any number of senders and renewals,
-   is secured by the newest token in use *)
-Theorem C16_partial_tokens : forall seq0 req0 s, reachableP renew_ok seq0 req0 s -> tokens_monotone_rev (wire_rev s) = true.
-Proof. intros; eapply tokens_ok_partial; eassumption. Qed.
+Definition C16_tokens_statement_before_fix : Prop := forall seq0 req0 s,
+  Old.reachable seq0 req0 s -> Old.tokens_monotone_rev (Old.wire_rev s) = true.
 
-Example C16_partial_tokens_nonvacuous : exists s,
-  reachableP renew_ok 10 1 s /\ renewals s = 2%nat /\ map c_inst (wire s) = [0; 1; 1; 1; 2; 2]%nat.
+Theorem C16_refuted_before_fix_old_token_after_renewal : exists s,
+  Old.reachable 1 1 s /\ Old.tokens_monotone_rev (Old.wire_rev s) = false /\ map Old.c_inst (Old.wire s) = [1%nat; 0%nat].
 Proof.
   eexists. split.
-  - exists [ESpawn 0; EGate 0; EActive 0; ECount 0; ELockI 0; EChunk 0; EUnlockI 0; EDone 0;
-            ERenStart; ERenGate; ERenDrain; ERenLock; ERenCopy; ERenOpn; ERenInstall; ERenUnlock;
-            ESpawn 1; EGate 1; EActive 1; ECount 1; ELockI 1; EChunk 1; EChunk 1; EUnlockI 1; EDone 1;
-            ERenStart; ERenGate; ERenDrain; ERenLock; ERenCopy; ERenOpn; ERenInstall; ERenUnlock;
-            ESpawn 0; EGate 2; EActive 2; ECount 2; ELockI 2; EChunk 2]%nat. vm_compute. reflexivity.
+  - exists [Old.ESpawn 0; Old.EGate 0; Old.EActive 0; Old.ERenStart; Old.ERenGate; Old.ERenDrain; Old.ERenLock; Old.ERenCopy;
+            Old.ERenOpn; Old.ERenInstall; Old.ERenUnlock; Old.ECount 0; Old.ELockI 0; Old.EChunk 0]%nat. vm_compute. reflexivity.
   - split; vm_compute; reflexivity.
+Qed.
+
+Theorem C16_refuted_before_fix_tokens : ~ C16_tokens_statement_before_fix.
+Proof.
+  intro H. destruct C16_refuted_before_fix_old_token_after_renewal as (s & R & X & _). rewrite (H 1 1 s R) in X. discriminate.
 Qed.
 
 (* the server side of the statement, pinned to the source *)
@@ -90,7 +101,8 @@ Print Assumptions C16_renewal_instant.
 Print Assumptions C16_renewal_instant_ms.
 Print Assumptions C16_refuted_instant_before_fix.
 Print Assumptions C16_once_per_token_source.
-Print Assumptions C16_refuted_old_token_after_renewal.
-Print Assumptions C16_refuted_tokens.
-Print Assumptions C16_partial_tokens.
+Print Assumptions C16_no_chunk_under_superseded_token.
+Print Assumptions C16_tokens_never_go_back.
+Print Assumptions C16_refuted_before_fix_old_token_after_renewal.
+Print Assumptions C16_refuted_before_fix_tokens.
 Print Assumptions C16_tie_server_rekeys_in_place.
